@@ -26,7 +26,7 @@ let parse_op (op : string) : op =
   | "mnew" -> OMNew | "mcap" -> OMWithCapacity (nn 1) | "mzero" -> OMZeroed (nn 1) | "mslice" -> OMFromSlice (bb 1)
   | "bclone" -> OBClone (pp 1) | "bslice" -> OBSlice (pp 1, nn 2, nn 3) | "bslicei" -> OBSliceIncl (pp 1, nn 2, nn 3)
   | "bsliceref" -> OBSliceRef (pp 1, if a 2 = "x" then None else Some (nn 2, nn 3))
-  | "bsplitoff" -> OBSplitOff (pp 1, nn 2) | "bsplitto" -> OBSplitTo (pp 1, nn 2) | "btrunc" -> OBTruncate (pp 1, nn 2) | "bclear" -> OBClear (pp 1)
+  | "bsplitoff" -> OBSplitOff (pp 1, nn 2) | "bsplitto" | "bctb" -> OBSplitTo (pp 1, nn 2) | "btrunc" -> OBTruncate (pp 1, nn 2) | "bclear" -> OBClear (pp 1)
   | "badv" -> OBAdvance (pp 1, nn 2) | "buniq" -> OBIsUnique (pp 1) | "btryinto" -> OBTryIntoMut (pp 1) | "binto" -> OBIntoMut (pp 1) | "bvec" -> OBIntoVec (pp 1) | "bdrop" -> OBDrop (pp 1)
   | "msplitoff" -> OMSplitOff (pp 1, nn 2) | "msplitto" -> OMSplitTo (pp 1, nn 2) | "msplit" -> OMSplit (pp 1) | "mtrunc" -> OMTruncate (pp 1, nn 2) | "mclear" -> OMClear (pp 1)
   | "mresize" -> OMResize (pp 1, nn 2, nn 3) | "mreserve" -> OMReserve (pp 1, nn 2) | "mreclaim" -> OMTryReclaim (pp 1, nn 2) | "mext" -> OMExtend (pp 1, bb 2) | "mexti" -> OMExtendIter (pp 1, bb 2, nn 3)
@@ -58,7 +58,7 @@ let same_handle (m : string) (i : ih) : bool =
     && (blk = "*" || (blk = "d" && (iblk = "d" || iblk = "x")) || (blk = iblk && ofs = i.ofs))
   | _ -> false
 
-let sharing_ops = ["bclone"; "bslice"; "bslicei"; "bsliceref"; "bsplitoff"; "bsplitto"; "btrunc"; "bclear"; "badv"; "mfreeze"; "msplitoff"; "msplitto"; "msplit"; "mtrunc"; "mclear"; "madv"; "bstatic"]
+let sharing_ops = ["bclone"; "bslice"; "bslicei"; "bsliceref"; "bsplitoff"; "bsplitto"; "bctb"; "btrunc"; "bclear"; "badv"; "mfreeze"; "msplitoff"; "msplitto"; "msplit"; "mtrunc"; "mclear"; "madv"; "bstatic"]
 let is_alloc_ev e = String.length e > 0 && (e.[0] = 'a' && e <> "ac" || e.[0] = 'r')
 
 let run () =
@@ -191,7 +191,7 @@ let run () =
               | "bclone", Some p, _, Some nh -> if p.len > 0 then expect_addr "the clone" nh (addr p)
               | ("bslice" | "bslicei" | "bsliceref"), Some p, _, Some nh -> if nh.len > 0 then expect_addr "the slice" nh (p.blk, int_of_string p.ofs + (if opname = "bsliceref" then argi 2 else argi 2))
               | "bsplitoff", Some p, Some s, Some nh -> expect_addr "self" s (addr p); expect_addr "the returned half" nh (p.blk, int_of_string p.ofs + argi 2)
-              | "bsplitto", Some p, Some s, Some nh -> expect_addr "the returned half" nh (addr p); expect_addr "self" s (p.blk, int_of_string p.ofs + argi 2)
+              | ("bsplitto" | "bctb"), Some p, Some s, Some nh -> expect_addr "the returned half" nh (addr p); expect_addr "self" s (p.blk, int_of_string p.ofs + argi 2)
               | ("btrunc" | "bclear" | "mtrunc" | "mclear"), Some p, Some s, _ -> if s.len > 0 || opname.[0] = 'm' then expect_addr "self" s (addr p)
               | ("badv" | "madv"), Some p, Some s, _ -> if s.len > 0 then expect_addr "self" s (p.blk, int_of_string p.ofs + argi 2)
               | "msplitoff", Some p, Some s, Some nh -> expect_addr "self" s (addr p); if nh.len > 0 then expect_addr "the returned half" nh (p.blk, int_of_string p.ofs + argi 2)
